@@ -19,6 +19,8 @@
   model) — "up to iteration order" in the property; the correspondence check compares sorted rows.
 -/
 import BroodModel.Lemmas.RoundTrip
+import BroodModel.Props.C04
+import BroodModel.Props.C15
 
 namespace Brood
 open Serde
@@ -78,6 +80,77 @@ theorem C06_result_behaves {w w' : World} {k : Kinds} {hr : Bool} {e next : Nat}
   obtain ⟨w'', r1, r2, _⟩ := run_total (deserialize_inv h) ops hwt
   exact ⟨w'', r1, r2⟩
 
+/-! ### the hypotheses hold along histories -/
+
+/-- No single-world operation touches a resource (C15), so `ResOk` is kept. -/
+theorem step_res {w w' : World} {op : Op} (e : step w op = .ok w') : w'.res = w.res := by
+  cases op with
+  | insert shape vals => obtain ⟨_, h⟩ := fstOut_ok e; exact C15_insert_frame h
+  | extend shape rows => obtain ⟨_, h⟩ := fstOut_ok e; exact C15_extend_frame h
+  | remove id => obtain ⟨_, h⟩ := fstOut_ok e; exact C15_remove_frame h
+  | clear order => obtain ⟨_, h⟩ := fstOut_ok e; exact C15_clear_frame h
+  | add id c v => obtain ⟨_, h⟩ := fstOut_ok e; exact C15_entry_add_frame h
+  | del id c => obtain ⟨_, h⟩ := fstOut_ok e; exact C15_entry_remove_frame h
+  | write id c v => obtain ⟨_, h⟩ := fstOut_ok e; exact C15_write_frame h
+  | reserve shape => exact C15_reserve_frame e
+  | shrink => simp [step] at e; subst e; rfl
+
+/-- A value that may be stored: zero-sized kinds carry no identity. -/
+def ZVal (k : Kinds) (v : Val) : Prop := k.kindOf v.ty = 'z' → v.base = 0
+
+/-- Every value a step leaves in the world was there before or was moved in by the step. -/
+theorem stepD_values_subset {w w' : World} (hi : Inv w) {op : Op} (hwt : op.wt w.n) {d i : List Val}
+    (e : stepD w op = .ok (w', d, i)) : ∀ x ∈ w'.values, x ∈ w.values ∨ x ∈ i := by
+  intro x hx
+  have hc := C04_step x hi hwt e
+  rw [World.cnt_eq, World.cnt_eq] at hc
+  have hpos : 0 < w'.values.count x := List.count_pos_iff.mpr hx
+  by_cases h1 : x ∈ w.values
+  · exact Or.inl h1
+  · right
+    have h0 : w.values.count x = 0 := List.count_eq_zero.mpr h1
+    have : 0 < i.count x := by omega
+    exact List.count_pos_iff.mp this
+
+/-- **Every world of every history round-trips**: start from resources typed by position, move
+in only values whose zero-sized kinds carry no identity — then after any history of admissible
+operations the world serializes and deserializes, in both encodings, to a world equal to it. -/
+theorem C06_roundtrip_history (k : Kinds) (ops : List Op) :
+    ∀ {w w' : World} {d i : List Val}, Inv w → ResOk w → ZOk k w → (∀ op ∈ ops, op.wt w.n) →
+      runD w ops = .ok (w', d, i) → (∀ v ∈ i, ZVal k v) →
+      ∀ (hr : Bool) (e next : Nat), RoundTrips k hr e next w' := by
+  induction ops with
+  | nil =>
+    intro w w' d i hi hres hz _ h _ hr e next
+    simp [runD] at h; obtain ⟨rfl, _, _⟩ := h
+    exact C06_roundtrip hi hres hz hr e next
+  | cons op ops ih =>
+    intro w w' d i hi hres hz hwt h hiv hr e next
+    simp only [runD] at h
+    cases h1 : stepD w op with
+    | ub y => simp [h1] at h
+    | ok p =>
+      obtain ⟨w1, d1, i1⟩ := p
+      simp only [h1] at h
+      cases h2 : runD w1 ops with
+      | ub y => simp [h2] at h
+      | ok q =>
+        obtain ⟨w2, d2, i2⟩ := q
+        simp only [h2, Out.ok.injEq, Prod.mk.injEq] at h
+        obtain ⟨rfl, rfl, rfl⟩ := h
+        have hs := stepD_step h1
+        have hi1 := step_inv hi hs
+        have hres1 : ResOk w1 := by
+          unfold ResOk at hres ⊢
+          rw [step_res hs]; exact hres
+        have hz1 : ZOk k w1 := by
+          intro v hv
+          rcases stepD_values_subset hi (hwt op (by simp)) h1 v hv with h' | h'
+          · exact hz v h'
+          · exact hiv v (by simp [h'])
+        exact ih hi1 hres1 hz1 (fun o ho => by rw [step_n hi hs]; exact hwt o (by simp [ho])) h2
+          (fun v hv => hiv v (by simp [hv])) hr e next
+
 /-- A round trip preserves what the next round trip needs (`ResOk`, `ZOk` for non-zero-sized
 kinds is about base identities, which `retag` keeps). -/
 theorem C06_retag_keeps (k : Kinds) (e : Nat) (v : Val) :
@@ -110,3 +183,4 @@ end Brood
 #print axioms Brood.C06_same_next_identifier
 #print axioms Brood.C06_result_behaves
 #print axioms Brood.C06_retag_keeps
+#print axioms Brood.C06_roundtrip_history
